@@ -340,26 +340,15 @@ WRITERS = {
 
 def who_may_write(prog, chk):
     rule = "who-may-write"
-    for f, allow in WRITERS.items():
-        accs = field_accesses(prog, MB_V, f)
-        n = 0
-        for a in accs:
-            if a["how"] in ("ref", "copy", "discr"):
-                continue
-            if a["how"] == "drop":
-                continue
-            fn = re.sub(r"::\{closure#\d+\}", "", a["body"])
-            if fn.startswith("<stun_types::message::MessageBuilder<'a> as std::clone::Clone>") or \
-                    fn.startswith("<stun_types::message::MessageBuilder<'a> as std::fmt::Debug>"):
-                continue
-            n += 1
-            ok = any(re.search(p, fn) and a["how"] in hows for p, hows in allow.items())
-            cons = [c[1] for c in a["consumers"] if c[0] == "call"]
-            if ok and a["how"] == "refmut":
-                ok = all(re.search(r"::push$", c) for c in cons) and bool(cons)
-            chk.ob(rule, "%s|%s|%s" % (f, fn.split("message::")[-1], a["how"]), ok, a["where"],
-                   detail="mutable access to MessageBuilder.%s in %s flowing to %r" % (f, fn, cons))
-        chk.floor("writers-of-" + f, n, 4)
+    from rules import agent_e2 as AE
+    # writers by function (private helpers reachable only from them count as them); what each writer pushes is decided by
+    # its table above
+    wr = [r"MessageBuilder::<'a>::add_attribute$", r"MessageBuilder::<'a>::add_raw_attribute$", r"MessageBuilder::<'a>::add_message_integrity(_unchecked)?$",
+          r"MessageBuilder::<'a>::add_fingerprint(_unchecked)?$", r"MessageBuilder::<'a>::into_owned$",
+          r"^<stun_types::message::MessageBuilder<'a> as std::clone::Clone>::clone$"]
+    rd = [r"MessageBuilder::<'a>::"]
+    for f in ("attributes", "attribute_types"):
+        AE.touchers(prog, chk, rule, MB_V, f, rd, wr, 4)
     # construction sites: Message::builder (both empty) and into_owned (element-wise)
     from e1 import construct_sites
     cs = construct_sites(prog, "stun_types::message::MessageBuilder")
@@ -411,5 +400,4 @@ def run(prog, chk, tier):
     CE.adders(prog, chk)
     CE.build_side(prog, chk, rule="add_message_integrity-pushes")
     CE.fingerprint_build(prog, chk, rule="add_fingerprint-pushes")
-    queries(prog, chk)
     who_may_write(prog, chk)
